@@ -50,28 +50,30 @@ Proof.
   induction l1 as [|[b c] t IH]; intros l2 e; cbn [app enc_encode_list]; auto.
 Qed.
 
-Lemma rt_dfs_sound : forall depth cx e0 p s,
-  rt_dfs depth cx (enc_encode_list e0 (rev p)) p = true ->
+Lemma rt_dfs_sound : forall depth cx e0 e p s,
+  e = enc_encode_list e0 (rev p) ->
+  rt_dfs depth cx e p = true ->
   (length s <= depth)%nat -> Forall (fun pr => In pr pairs4) s ->
   rt_ok_from (enc_encode_list e0 (rev p ++ s)) cx (rev p ++ s) = true.
 Proof.
-  induction depth as [|k IH]; intros cx e0 p s H Hl Hs.
-  - destruct s; [|simpl in Hl; lia]. rewrite app_nil_r.
+  induction depth as [|k IH]; intros cx e0 e p s He H Hl Hs.
+  - destruct s; [|simpl in Hl; lia]. rewrite app_nil_r. rewrite <- He.
     cbn [rt_dfs] in H. apply andb_true_iff in H. tauto.
   - cbn [rt_dfs] in H. apply andb_true_iff in H. destruct H as [H0 H1].
-    destruct s as [|pr s]; [rewrite app_nil_r; exact H0|].
+    destruct s as [|pr s]; [rewrite app_nil_r, <- He; exact H0|].
     inversion Hs as [|? ? Hpr Hs']; subst.
     rewrite forallb_forall in H1. specialize (H1 pr Hpr).
     replace (rev p ++ pr :: s) with (rev (pr :: p) ++ s)
       by (cbn [rev]; rewrite <- app_assoc; reflexivity).
-    apply IH; [|simpl in Hl; lia | exact Hs'].
+    apply (IH cx e0 (enc_encode (enc_encode_list e0 (rev p)) (fst pr) (snd pr)) (pr :: p) s);
+      [|exact H1 | simpl in Hl; lia | exact Hs'].
     cbn [rev]. rewrite enc_encode_list_app. cbn [enc_encode_list].
-    destruct pr as [b c]. exact H1.
+    destruct pr as [b c]. reflexivity.
 Qed.
 
 Definition rt_all (L : nat) : bool := rt_dfs L [0; 0] (enc_new 2) [].
 
-Lemma rt_all_9 : rt_all 9 = true.
+Lemma rt_all_9 : rt_dfs 9 [0; 0] (enc_new 2) [] = true.
 Proof. vm_compute. reflexivity. Qed.
 
 Lemma decision2_in : forall p, decision_ok 2 p -> In p pairs4.
@@ -87,7 +89,7 @@ Theorem mq_roundtrip_bounded_9 : forall l : list (Z * Z),
   mq_decode 2 (mq_encode 2 l) (map snd l) = Ok (map fst l).
 Proof.
   intros l Hl Hd.
-  pose proof (rt_dfs_sound 9 [0; 0] (enc_new 2) [] l rt_all_9 Hl) as H.
+  pose proof (rt_dfs_sound 9 [0; 0] (enc_new 2) (enc_new 2) [] l eq_refl rt_all_9 Hl) as H.
   cbn [rev app] in H.
   assert (Hin : Forall (fun pr => In pr pairs4) l).
   { eapply Forall_impl; [|exact Hd]. intros p Hp. apply decision2_in. exact Hp. }
